@@ -2319,6 +2319,116 @@ theorem specOp_OK (ce usb : Bool) (d d' : Dev) (op : Op) (res : Except HErr Val)
          rw [List.length_replicate]; exact h3)
       | exact hargs
 
+/-! ### phase 3: update_life_cycle / ele_message / trust provisioning (log only), fuse_program, fuse_read -/
+
+theorem exec_logCmd (d : Dev) (hf : d.faults = []) (tag : Nat) (ps : List Nat)
+    (ht : tag = Spec.cUpdateLifeCycle ∨ tag = Spec.cEleMessage ∨
+      (tag = Spec.cTrustProvisioning ∧ (ps.head? = some Spec.tpOemSetMasterShare ∨ ps.head? = some Spec.tpHsmEncBlock))) :
+    d.exec ⟨tag, 0, ps⟩ = .single { d.next with log := d.log ++ [(tag, ps)] } (genericResp 0 tag) := by
+  rcases ht with rfl | rfl | ⟨rfl, hp⟩
+  · simp [Dev.exec, faultAt_none d hf, Dev.next, Spec.cFillMemory, Spec.cGetProperty, Spec.cSetProperty,
+      Spec.cFlashEraseRegion, Spec.cFlashEraseAll, Spec.cReadMemory, Spec.cWriteMemory, Spec.cReceiveSbFile,
+      Spec.cExecute, Spec.cCall, Spec.cFlashEraseAllUnsecure, Spec.cConfigureMemory, Spec.cReliableUpdate,
+      Spec.cReset, Spec.cFlashReadResource, Spec.cFlashReadOnce, Spec.cFlashProgramOnce, Spec.cKeyProvisioning,
+      Spec.cUpdateLifeCycle, Spec.cEleMessage, Spec.cTrustProvisioning, Spec.cFuseRead, Spec.cFuseProgram]
+  · simp [Dev.exec, faultAt_none d hf, Dev.next, Spec.cFillMemory, Spec.cGetProperty, Spec.cSetProperty,
+      Spec.cFlashEraseRegion, Spec.cFlashEraseAll, Spec.cReadMemory, Spec.cWriteMemory, Spec.cReceiveSbFile,
+      Spec.cExecute, Spec.cCall, Spec.cFlashEraseAllUnsecure, Spec.cConfigureMemory, Spec.cReliableUpdate,
+      Spec.cReset, Spec.cFlashReadResource, Spec.cFlashReadOnce, Spec.cFlashProgramOnce, Spec.cKeyProvisioning,
+      Spec.cUpdateLifeCycle, Spec.cEleMessage, Spec.cTrustProvisioning, Spec.cFuseRead, Spec.cFuseProgram]
+  · cases ps with
+    | nil => simp at hp
+    | cons op rest =>
+      simp only [List.head?_cons, Option.some.injEq] at hp
+      simp [Dev.exec, faultAt_none d hf, Dev.next, Spec.cFillMemory, Spec.cGetProperty, Spec.cSetProperty,
+      Spec.cFlashEraseRegion, Spec.cFlashEraseAll, Spec.cReadMemory, Spec.cWriteMemory, Spec.cReceiveSbFile,
+      Spec.cExecute, Spec.cCall, Spec.cFlashEraseAllUnsecure, Spec.cConfigureMemory, Spec.cReliableUpdate,
+      Spec.cReset, Spec.cFlashReadResource, Spec.cFlashReadOnce, Spec.cFlashProgramOnce, Spec.cKeyProvisioning,
+      Spec.cUpdateLifeCycle, Spec.cEleMessage, Spec.cTrustProvisioning, Spec.cFuseRead, Spec.cFuseProgram, hp]
+
+theorem exec_fuseRead (d : Dev) (hf : d.faults = []) (a n m : Nat) :
+    d.exec ⟨Spec.cFuseRead, 0, [a, n, m]⟩ =
+      if a + n ≤ d.resource.length then .toHost d.next (readMemResp 0 n) ((d.resource.drop a).take n) 0
+      else .single d.next (genericResp Spec.stMemoryRangeInvalid Spec.cFuseRead) := by
+  simp [Dev.exec, faultAt_none d hf, Dev.next, Spec.cFillMemory, Spec.cGetProperty, Spec.cSetProperty,
+      Spec.cFlashEraseRegion, Spec.cFlashEraseAll, Spec.cReadMemory, Spec.cWriteMemory, Spec.cReceiveSbFile,
+      Spec.cExecute, Spec.cCall, Spec.cFlashEraseAllUnsecure, Spec.cConfigureMemory, Spec.cReliableUpdate,
+      Spec.cReset, Spec.cFlashReadResource, Spec.cFlashReadOnce, Spec.cFlashProgramOnce, Spec.cKeyProvisioning,
+      Spec.cUpdateLifeCycle, Spec.cEleMessage, Spec.cTrustProvisioning, Spec.cFuseRead, Spec.cFuseProgram]
+
+theorem exec_fuseProgram (d : Dev) (hf : d.faults = []) (a n m : Nat) :
+    d.exec ⟨Spec.cFuseProgram, Spec.flagHasDataPhase, [a, n, m]⟩ =
+      .fromHost { d.next with sb := [], log := d.log ++ [(Spec.cFuseProgram, [a, n, m])] } (genericResp 0 Spec.cFuseProgram) 0 n 0 := by
+  simp [Dev.exec, faultAt_none d hf, Dev.next, Spec.cFillMemory, Spec.cGetProperty, Spec.cSetProperty,
+      Spec.cFlashEraseRegion, Spec.cFlashEraseAll, Spec.cReadMemory, Spec.cWriteMemory, Spec.cReceiveSbFile,
+      Spec.cExecute, Spec.cCall, Spec.cFlashEraseAllUnsecure, Spec.cConfigureMemory, Spec.cReliableUpdate,
+      Spec.cReset, Spec.cFlashReadResource, Spec.cFlashReadOnce, Spec.cFlashProgramOnce, Spec.cKeyProvisioning,
+      Spec.cUpdateLifeCycle, Spec.cEleMessage, Spec.cTrustProvisioning, Spec.cFuseRead, Spec.cFuseProgram]
+
+theorem refines_logCmd (h : Host) (d d' : Dev) (t : Nat) (ps : List Nat) (res : Except HErr Val) (st : Nat)
+    (hs : Synced h d) (hd : d.OK) (heda : h.eda = false) (hargs : (Op.logCmd t ps).argsOK)
+    (hspec : specOp h.cfg.cmdExc h.cfg.usb d (.logCmd t ps) = some (d', res, st)) :
+    Refines h (.logCmd t ps) d' res st := by
+  obtain ⟨ht, hn, hv⟩ := hargs
+  simp only [specOp] at hspec
+  split at hspec <;> rename_i hc
+  · simp only [Option.some.injEq, Prod.mk.injEq] at hspec
+    obtain ⟨rfl, rfl, rfl⟩ := hspec
+    exact refines_logged h d _ t ps hs heda (wf_mk _ _ _ ht (by decide) (by omega) hv)
+      (exec_logCmd d hd.nofault t ps hc) rfl
+  · simp at hspec
+
+theorem afterData_fuseProgram (d : Dev) (h : d.phase = .idle) (ps : List Nat) (data : Bytes) (k : Nat) :
+    Dev.afterData { d.next with sb := [], log := d.log ++ [(Spec.cFuseProgram, ps)] } Spec.cFuseProgram 0 data k =
+      { d with ncmd := d.ncmd + 1, pktCount := k, sb := data, log := d.log ++ [(Spec.cFuseProgram, ps)] } := by
+  cases d
+  simp only at h
+  subst h
+  simp [Dev.afterData, Dev.store, Dev.next, Dev.finishData, Spec.cFuseProgram, Spec.cWriteMemory, Spec.cKeyProvisioning]
+
+theorem refines_fuseProgram (h : Host) (d d' : Dev) (a : Nat) (data : Bytes) (m : Nat) (res : Except HErr Val) (st : Nat)
+    (hs : Synced h d) (hd : d.OK) (hmps : h.mps = some d.maxPacket) (heda : h.eda = false)
+    (hargs : (Op.fuseProgram a data m).argsOK)
+    (hspec : specOp h.cfg.cmdExc h.cfg.usb d (.fuseProgram a data m) = some (d', res, st)) :
+    Refines h (.fuseProgram a data m) d' res st := by
+  obtain ⟨ha, hn, hm⟩ := hargs
+  have hm' := clampMemId_lt hm
+  have hwf : (⟨Spec.cFuseProgram, Spec.flagHasDataPhase, [a, data.length, clampMemId m]⟩ : CmdPkt).WF :=
+    wf_mk _ _ _ (by decide) (by decide) (by simp) (by intro v hv; simp at hv; rcases hv with rfl | rfl | rfl <;> assumption)
+  have hex := exec_fuseProgram d hd.nofault a data.length (clampMemId m)
+  simp only [specOp, Option.some.injEq, Prod.mk.injEq] at hspec
+  obtain ⟨rfl, rfl, rfl⟩ := hspec
+  obtain ⟨h3, e3, hI3⟩ := dataOutCmd_ok hs hd hmps _ _ data hwf _ 0 hex rfl rfl hd.noabort (fun e => absurd e (by decide))
+  rw [afterData_fuseProgram d hs.idle] at hI3
+  exact Refines.mk' e3 hI3 hs.opened hs.idle heda
+
+theorem refines_fuseRead (h : Host) (d d' : Dev) (a n m : Nat) (res : Except HErr Val) (st : Nat)
+    (hs : Synced h d) (hd : d.OK) (heda : h.eda = false)
+    (hargs : (Op.fuseRead a n m).argsOK)
+    (hspec : specOp h.cfg.cmdExc h.cfg.usb d (.fuseRead a n m) = some (d', res, st)) :
+    Refines h (.fuseRead a n m) d' res st := by
+  obtain ⟨ha, hn, hm⟩ := hargs
+  have hm' := clampMemId_lt hm
+  have hwf : (⟨Spec.cFuseRead, 0, [a, n, clampMemId m]⟩ : CmdPkt).WF :=
+    wf_mk _ _ _ (by decide) (by decide) (by simp) (by intro v hv; simp at hv; rcases hv with rfl | rfl | rfl <;> assumption)
+  have hex := exec_fuseRead d hd.nofault a n (clampMemId m)
+  simp only [specOp] at hspec
+  split at hspec <;> rename_i hc <;> simp only [Option.some.injEq, Prod.mk.injEq] at hspec <;>
+    obtain ⟨rfl, rfl, rfl⟩ := hspec
+  · rw [if_pos hc] at hex
+    have hdata : ((d.resource.drop a).take n).length = n := by
+      rw [List.length_take, List.length_drop]; omega
+    obtain ⟨h3, e3, hI3⟩ := dataInCmd_ok hs hd _ _ .readMemory hwf d.next _ _ hex rfl rfl _
+      (readMemResp_parse 0 n (by omega) hn) (readMemResp_ne_nil _ _)
+      (by rw [readMemResp_length]; omega) rfl rfl hdata.symm
+    rw [next_eq d hs.idle] at hI3
+    exact Refines.mk' e3 hI3 hs.opened hs.idle heda
+  · rw [if_neg hc] at hex
+    obtain ⟨h3, e3, hI3⟩ := dataInCmd_refused hs _ _ .readMemory hwf d.next Spec.stMemoryRangeInvalid
+      (by decide) (by decide) hex rfl
+    rw [next_eq d hs.idle] at hI3
+    exact Refines.mk' e3 hI3 hs.opened hs.idle heda
+
 /-! ### the refinement theorems -/
 
 /-- One operation against the live reference device, either transport. -/
@@ -2343,6 +2453,9 @@ theorem op_refines (h : Host) (d d' : Dev) (op : Op) (res : Except HErr Val) (st
   | efuseProgramOnce i v c => exact refines_efuseProgramOnce h d d' i v c res st hs hd heda hargs hspec
   | flashReadResource a n o => exact refines_flashReadResource h d d' a n o res st hs hd heda hargs hspec
   | kpSetUserKey t data => exact refines_kpSetUserKey h d d' t data res st hs hd hmps heda hargs hspec
+  | logCmd t ps => exact refines_logCmd h d d' t ps res st hs hd heda hargs hspec
+  | fuseProgram a data m => exact refines_fuseProgram h d d' a data m res st hs hd hmps heda hargs hspec
+  | fuseRead a n m => exact refines_fuseRead h d d' a n m res st hs hd heda hargs hspec
   | kpWriteKeyStore data => exact refines_kpWriteKeyStore h d d' data res st hs hd hmps heda hargs hspec
   | kpReadKeyStore => exact refines_kpReadKeyStore h d d' res st hs hd heda hspec
   | execute a g sp =>
